@@ -294,7 +294,7 @@ Lemma upd_abs st h p f g : (forall x, option_map abs_row (f x) = g (abs_row x)) 
 Proof. intros H. rewrite row_of_abs. destruct (row_of st h); simpl; auto. symmetry. now apply cupd_abs. Qed.
 
 Lemma abs_cmoved s : abs_slot (cmoved s) = vmoved (abs_slot s).
-Proof. destruct s as [| |[[[a t] r]|]|[[[a l] t]|]]; try reflexivity. unfold cmoved, vmoved, abs_slot. destruct (Nat.leb 5 t); reflexivity. Qed.
+Proof. destruct s as [| |[[[a t] r]|]|[[[a l] t]|]]; reflexivity. Qed.
 Lemma is_cs_abs s : is_vs (abs_slot s) = is_cs s.
 Proof. destruct s as [| |[[[a t] r]|]|[[[a l] t]|]]; reflexivity. Qed.
 
@@ -337,10 +337,10 @@ Proof.
     rewrite !ro_abs. destruct (ro st h1 || ro st h2); auto. destruct (Nat.eqb h1 h2); auto.
     rewrite read_row_abs. destruct (opt_bind (row_of st h1) (fun r => cget r p1)) as [s|]; simpl; auto.
     rewrite (upd_abs st h2 p2 (fun _ => Some s) (fun _ => Some (abs_row s))) by reflexivity.
-    rewrite (upd_abs st h1 p1 (fun q => Some (map cmoved q)) (fun q => Some (map vmoved q))).
+    rewrite (upd_abs st h1 p1 (fun _ => Some (czero_row sc n)) (fun _ => Some (vzero_row sc n))).
     + destruct (opt_bind (row_of st h2) _); simpl; auto.
       destruct (opt_bind (row_of st h1) _); simpl; auto. now rewrite !abs_set_row.
-    + intros x. simpl. f_equal. unfold abs_row. rewrite !map_map. apply map_ext. apply abs_cmoved.
+    + intros x. simpl. f_equal. apply abs_zero_row.
   - (* OMoveAppend *)
     rewrite !ro_abs. destruct (ro st h1 || ro st h2); auto. destruct (Nat.eqb h1 h2); auto.
     rewrite read_slot_abs. destruct (opt_bind (row_of st h1) (fun r => opt_bind (cget r p1) _)) as [s|]; simpl; auto.
@@ -377,7 +377,7 @@ Definition writes (o : op) (h : nat) : Prop :=
   | OCopySlot _ _ _ _ h2 _ _ => h2 = h
   | OCopyRow _ _ _ h2 _ => h2 = h
   | OMoveSlot h1 _ _ h2 _ _ => h1 = h \/ h2 = h
-  | OMoveRow h1 _ h2 _ => h1 = h \/ h2 = h
+  | OMoveRow _ h1 _ h2 _ => h1 = h \/ h2 = h
   | OMoveAppend _ h1 _ _ h2 _ _ => h1 = h \/ h2 = h
   end.
 
@@ -574,10 +574,10 @@ Proof.
 Qed.
 
 (* MoveTo of a struct: the destination reads the old source, every field of the source reads empty *)
-Lemma a_move_row sc st h1 p1 h2 p2 st' :
-  astep sc st (OMoveRow h1 p1 h2 p2) = (st', 0) ->
+Lemma a_move_row sc st n h1 p1 h2 p2 st' :
+  astep sc st (OMoveRow n h1 p1 h2 p2) = (st', 0) ->
   exists s, aread_row st h1 p1 = Some s /\ aread_row st' h2 p2 = Some s /\
-            aread_row st' h1 p1 = Some (map vmoved s).
+            aread_row st' h1 p1 = Some (vzero_row sc n).
 Proof.
   unfold astep, aread_row. destruct (aro st h1 || aro st h2); try discriminate.
   destruct (Nat.eqb h1 h2) eqn:Eh; try discriminate. apply Nat.eqb_neq in Eh.
